@@ -40,7 +40,7 @@ impl Scenario for C35 {
             real: vec!["AsyncSecureChannel::connect_no_retry / send", "Request::send (oneshot + mpsc with send_timeout)", "client TcpTransport::poll / poll_inner / close", "TransportState::wait_for_outgoing_message / next_timeout / process_chunk / merge_chunks", "client SendBuffer", "TcpCodec, Chunker, SecureChannel (client role)"],
             stubbed: vec!["TCP socket (verif::net connector seam, in-memory duplex)", "server (scripted raw peer built from the real server-role SecureChannel / Chunker)"],
             assumptions: vec!["security policy None (secured client channels are exercised in C14's client half)", "the scripted server sends chunks of one message contiguously (sequence numbers in wire order)"],
-            fault_kinds: vec!["response_after_deadline", "no_response", "duplicate_response", "unknown_request_id", "abort_chunk", "undecodable_response", "slow_chunks_across_deadline", "server_close", "client_close", "inflight_limit_reached"],
+            fault_kinds: vec!["response_after_deadline", "no_response", "duplicate_response", "unknown_request_id", "abort_chunk", "undecodable_response", "chunks_reordered", "chunk_dropped", "slow_chunks_across_deadline", "server_close", "client_close", "inflight_limit_reached"],
         }
     }
     fn runs(&self, tier: Tier) -> u64 {
@@ -60,8 +60,8 @@ impl Scenario for C35 {
         for _ in 0..n {
             t += *rng.pick(&[0u64, 0, 1, 5, 20, 100]);
             let timeout = *rng.pick(&[20u64, 50, 100, 200, 400]);
-            let kinds = ["reply", "race", "slow", "late", "never", "dup", "unknown_first", "abort", "garbage"];
-            let kind = kinds[rng.weighted(&[12, 4, 4, 4, 4, 4, 4, 2, 1])];
+            let kinds = ["reply", "race", "slow", "late", "never", "dup", "unknown_first", "abort", "garbage", "reorder", "drop_mid"];
+            let kind = kinds[rng.weighted(&[12, 4, 4, 4, 4, 4, 4, 2, 1, 2, 1])];
             let size = *rng.pick(&[0usize, 0, 100, 9000, 20_000, 40_000]);
             let delay = match kind {
                 "race" => (timeout as i64 + rng.range(-3, 3)).max(0) as u64,
@@ -118,6 +118,8 @@ struct Shared {
 #[derive(Clone, Debug)]
 enum Send {
     Reply { rid: u32, idx: usize, size: usize, gap_ms: u64 },
+    /// multi-chunk reply whose chunks are sent in another order / with the middle chunk missing
+    Mangled { rid: u32, idx: usize, drop_mid: bool },
     Unknown { idx: usize },
     Abort { rid: u32, idx: usize },
     Garbage { rid: u32, idx: usize },
@@ -260,6 +262,7 @@ async fn run(plan: &Value, ctx: &mut Ctx) {
     let mut terminal: BTreeMap<usize, (Instant, &'static str)> = BTreeMap::new();
     let mut received: BTreeMap<usize, (Instant, u32)> = BTreeMap::new();
     let mut garbage_sent_at: Option<Instant> = None;
+    let mut protocol_violation_at: Option<Instant> = None;
     let mut server_closed_at: Option<Instant> = None;
     let mut chunks_of: BTreeMap<usize, usize> = BTreeMap::new();
     loop {
@@ -301,6 +304,32 @@ async fn run(plan: &Value, ctx: &mut Ctx) {
                             }
                         }
                         terminal.entry(idx).or_insert((Instant::now(), "reply"));
+                    }
+                }
+                Send::Mangled { rid, idx, drop_mid } => {
+                    let handle = received.get(&idx).map(|r| r.1).unwrap_or(0);
+                    if let Ok(mut chunks) = srv.encode(rid, &read_response(handle, idx as u32, 30_000), srv.chunk_size) {
+                        chunks_of.insert(idx, chunks.len());
+                        if drop_mid {
+                            ctx.fault("chunk_dropped");
+                            if chunks.len() > 2 {
+                                chunks.remove(1);
+                            }
+                            protocol_violation_at.get_or_insert(Instant::now());
+                        } else {
+                            ctx.fault("chunks_reordered");
+                            if chunks.len() > 2 {
+                                chunks.swap(0, 1);
+                            }
+                            // a receiver may put them back in order or refuse the message
+                            protocol_violation_at.get_or_insert(Instant::now());
+                        }
+                        for c in chunks {
+                            if !srv.send_bytes(&c).await {
+                                break;
+                            }
+                        }
+                        terminal.entry(idx).or_insert((Instant::now(), if drop_mid { "incomplete" } else { "reordered" }));
                     }
                 }
                 Send::Unknown { idx } => {
@@ -371,6 +400,7 @@ async fn run(plan: &Value, ctx: &mut Ctx) {
                                 push(now + delay, Send::Unknown { idx });
                                 push(now + delay + Duration::from_millis(1), Send::Reply { rid: request_id, idx, size, gap_ms: 0 });
                             }
+                            "reorder" | "drop_mid" => push(now + delay, Send::Mangled { rid: request_id, idx, drop_mid: b["kind"] == "drop_mid" }),
                             "abort" => push(now + delay, Send::Abort { rid: request_id, idx }),
                             "garbage" => push(now + delay, Send::Garbage { rid: request_id, idx }),
                             "slow" => {
@@ -405,7 +435,7 @@ async fn run(plan: &Value, ctx: &mut Ctx) {
     let closed = sh.closed;
     let ms = |t: Instant| (t - t0).as_micros() as f64 / 1000.0;
     // ---- oracle ----
-    let scripted_close = server_closed_at.is_some() || garbage_sent_at.is_some() || client_close_planned;
+    let scripted_close = server_closed_at.is_some() || garbage_sent_at.is_some() || protocol_violation_at.is_some() || client_close_planned;
     if let Some((at, status)) = closed {
         if !scripted_close {
             ctx.violate("C35", "transport-closed-without-cause", status.name(), format!("the client transport closed with {} at {:.1} ms although the server neither closed nor sent an undecodable message, and the client did not close", status.name(), ms(at)));
@@ -459,6 +489,8 @@ async fn run(plan: &Value, ctx: &mut Ctx) {
                 }
                 match term {
                     Some((t, "reply")) if t <= out.at => {}
+                    Some((t, "reordered")) if t <= out.at => {}
+                    Some((_, "incomplete")) => ctx.violate("C12", "incomplete-message-accepted", "side=client", format!("{} completed Ok although the middle chunk of its response was never delivered (sequence numbers not consecutive)", desc)),
                     _ => ctx.violate("C35", "completed-without-response", "", format!("{} completed Ok at {:.1} ms before the server had sent a complete response", desc, ms(out.at))),
                 }
                 if out.at > deadline + Duration::from_millis(2) && received.get(idx).map(|r| r.0 <= deadline).unwrap_or(false) {
@@ -472,7 +504,7 @@ async fn run(plan: &Value, ctx: &mut Ctx) {
                 }
                 if let Some((t, k)) = term {
                     let max_pending_hit = max_pending > 0 && chunks_of.get(idx).cloned().unwrap_or(0) > max_pending + 1;
-                    if t + Duration::from_millis(1) < deadline && !closed_before(t) && k != "garbage" && !max_pending_hit {
+                    if t + Duration::from_millis(1) < deadline && !closed_before(t) && k != "garbage" && k != "incomplete" && k != "reordered" && !max_pending_hit {
                         ctx.violate("C35", "timeout-despite-response", k, format!("{} completed with BadTimeout although the {} was delivered before the deadline on an open transport", desc, k));
                     }
                 }
@@ -492,6 +524,7 @@ async fn run(plan: &Value, ctx: &mut Ctx) {
                 let ok = closed.map(|(c, _)| c <= out.at + eps).unwrap_or(false)
                     || server_closed_at.map(|c| c <= out.at + eps).unwrap_or(false)
                     || garbage_sent_at.map(|c| c <= out.at + eps).unwrap_or(false)
+                    || protocol_violation_at.map(|c| c <= out.at + eps).unwrap_or(false)
                     || client_close_at.map(|c| c <= out.at + eps).unwrap_or(false);
                 if !ok {
                     ctx.violate("C35", "closed-status-on-open-transport", e.name(), format!("{} completed with {} at {:.1} ms while the transport was open (transport close: {})", desc, e.name(), ms(out.at), match closed { Some((c, s)) => format!("{} at {:.1} ms", s.name(), ms(c)), None => "never".into() }));
